@@ -18,7 +18,8 @@ FILES = ["OpenPinch/analysis/graph_data.py", "OpenPinch/utils/miscellaneous.py"]
 FUNCS = ["clean_composite_curve_ends", "clean_composite_curve", "_make_composite_graph", "_graph_cc", "_make_gcc_graph", "_build_gcc_segments",
          "_iter_gcc_segment_slices", "_segment_bounds", "_classify_segment", "_segment_streamloc", "_create_curve", "_column_to_list"]
 DISP = 0.01          # display rounding of the statement
-TGRIDS = {3: [200.0, 150.0, 100.0], 4: [200.0, 180.0, 120.0, 60.0], 5: [250.0, 200.0, 180.0, 120.0, 60.0], 6: [300.0, 250.0, 200.0, 180.0, 120.0, 60.0]}
+TGRIDS = {"4n": [200.0, 150.004, 150.0, 100.0],      # two rows 0.004 K apart: the same temperature once rounded for display
+          3: [200.0, 150.0, 100.0], 4: [200.0, 180.0, 120.0, 60.0], 5: [250.0, 200.0, 180.0, 120.0, 60.0], 6: [300.0, 250.0, 200.0, 180.0, 120.0, 60.0]}
 
 
 def interp_points(pts, T):
@@ -31,6 +32,18 @@ def interp_points(pts, T):
                 return None
             return x1 + (x0 - x1) * ((T - y1) / (y0 - y1))
     return None
+
+
+def near_in_T(pts, Hk, Tk, tolT):
+    """alternatives: (Hk, Tk) lies within tolT (in temperature) of a segment of the emitted polyline whose enthalpy range contains Hk.
+    Linear in the symbolic enthalpies: |(Tk-y0)(x1-x0) - (y1-y0)(Hk-x0)| <= tolT |x1-x0|."""
+    alts = []
+    for (x0, y0), (x1, y1) in zip(pts, pts[1:]):
+        dev = (Tk - y0) * (x1 - x0) - (y1 - y0) * (Hk - x0)
+        for sgn in (1, -1):        # x1 >= x0 or x1 <= x0
+            w = (x1 - x0) * sgn
+            alts.append(h.conj([w >= 0, (Hk - x0) * sgn >= 0, (x1 - Hk) * sgn >= 0, dev <= tolT * w, -dev <= tolT * w]))
+    return alts
 
 
 def check_curve(ctx, tag, Ts, Hs, pts):
@@ -46,8 +59,15 @@ def check_curve(ctx, tag, Ts, Hs, pts):
     #    rows outside the emitted range belong to the flat ends (same enthalpy as the nearest emitted end)
     conds, loose = [], []
     for k in range(n):
+        same_y = [x for x, y in pts if abs(y - round(Ts[k], 2)) < 1e-9]
         xi = interp_points(pts, Ts[k]) if pts else None
-        if xi is not None:
+        if len(same_y) >= 1 and any(abs(round(Ts[j], 2) - round(Ts[k], 2)) < 1e-9 for j in range(n) if j != k):
+            # several rows share this displayed temperature: the row is one of the points emitted at it, or (removed as redundant) lies within
+            # display rounding IN TEMPERATURE of an emitted segment that spans its enthalpy
+            conds.append(h.disj([h.close(x, Hs[k], DISP + 1e-6) for x in same_y] + near_in_T(pts, Hs[k], Ts[k], DISP + 1e-6)))
+            loose.append(h.disj([h.close(x, Hs[k], 4 * DISP) for x in same_y] + near_in_T(pts, Hs[k], Ts[k], 4 * DISP)))
+            ctx.tag("rows sharing a displayed temperature")
+        elif xi is not None:
             conds.append(h.close(xi, Hs[k], DISP + 1e-6))
             loose.append(h.close(xi, Hs[k], 4 * DISP))
         elif pts:
@@ -194,13 +214,13 @@ def body_records(ctx, case):
 
 
 def cases_cc(tier, seed):
-    return [{"n": n} for n in ((3, 4) if tier == "quick" else (3, 4, 5, 6))]
+    return [{"n": n} for n in ((3, 4, "4n") if tier == "quick" else (3, 4, "4n", 5, 6))]
 
 
 def cases_gcc(tier, seed):
     ns = (3, 4) if tier == "quick" else (3, 4, 5, 6)
     return ([{"n": n} for n in ns] + [{"n": n, "utility": True} for n in ns[:2]]
-            + [{"n": n, "sliver": True} for n in ns[:2]] + [{"n": 3, "sliver": True, "utility": True}])
+            + [{"n": n, "sliver": True} for n in ns[:2]] + [{"n": 3, "sliver": True, "utility": True}] + [{"n": "4n"}])
 
 
 def cases_records(tier, seed):
